@@ -582,9 +582,10 @@ def check_C09(tier, ev):
                "resulting state) is replayed on a real App (BankSudo::Mint, BankMsg::Send via execute and send_tokens, "
                "BankMsg::Burn) with amounts scaled by a per-script unit in {1, 1e6, 1e18, (2^128-1)/Cap}; Ok/Err of every "
                "operation and Balance/AllBalances/Supply of every account and denomination are compared with TLC's state. "
+               "A Chain stage (menu `funds`) compares the balances and the Supply query seen by contracts INSIDE transactions. "
                "Non-trivial = last operation fails, is a self-transfer, or carries zero/repeated-denomination coins.")
     ev.assumptions += ["amounts are linear: scaling by a unit preserves every comparison and sum the bank makes",
-                       "contract-initiated transfers are covered by the Chain specification (C01/C05), not here",
+                       "contract-initiated transfers: Chain specification, menu funds (balances and supply seen inside transactions)",
                        "exhaustive over the coin-list menu from every reachable table within Cap; random histories beyond"]
     cfgs = ["mc/MC_Bank_quick.cfg"] if tier == "quick" else ["mc/MC_Bank_quick.cfg", "mc/MC_Bank_thorough.cfg"]
     for cfg in cfgs:
@@ -593,6 +594,11 @@ def check_C09(tier, ev):
     ev.exhaustive = True
     n, ln = (20, 150) if tier == "quick" else (300, 400)
     drive_and_validate(ev, "bank", n, ln, "trace/Trace_Bank.tla", "trace/Trace_Bank.cfg")
+    # the bank INSIDE transactions (Chain): balances and the Supply query as seen by contracts while funds move
+    # (attached funds, transfers by sub-messages, rolled-back transfers), and after the call
+    mc_and_replay(ev, "mc/MC_Chain.tla", f"mc/MC_Chain_funds_{tier}.cfg", "chain", 3400, [], coverage=False,
+                  env={"MTV_FOCUS": "reads.supply,post.supply,reads.bank,reads.bankf,post.bank", "MTV_ALWAYS": ""},
+                  need_features=["funds"])
 
 
 # ---- properties decided on the Chain specification -------------------------------------------
@@ -666,14 +672,17 @@ TRACE_FOCUS = {
     "C10": ["invocation.reads", "views"], "C17": ["modules"],
     "C11": ["result", "state", "invocation.info"], "C12": ["result", "state", "invocation.info"],
     "C13": ["result", "responses", "state"],
+    "C14": ["result", "state", "invocation.reads", "panic", "modules"], "C15": ["result", "state", "invocation.reads", "panic"],
 }
 
 
-def chain_trace_stage(ev, runs, calls):
-    """impl -> spec for the Chain layer: random larger programs executed on the real App, re-run by TLC"""
+def chain_trace_stage(ev, runs, calls, stake=False):
+    """impl -> spec for the Chain layer: random larger programs executed on the real App, re-run by TLC.
+    stake=True: the App holds the real staking / distribution keepers and users and contracts also send staking messages"""
     pid = ev.pid
-    tr = os.path.join(OUT, f"{pid}-chain-drive.ndjson")
-    rep = run_mtv(["drive", "chain", str(runs), str(calls), tr], tag=f"{pid}-chain-drive")
+    layer, tcfg, sfx = ("chain-stake", "trace/Trace_Chain_stake.cfg", "s") if stake else ("chain", "trace/Trace_Chain.cfg", "")
+    tr = os.path.join(OUT, f"{pid}-{layer}-drive.ndjson")
+    rep = run_mtv(["drive", layer, str(runs), str(calls), tr], tag=f"{pid}-{layer}-drive")
     # split at run borders so that one rejected run does not hide the others
     lines = open(tr).read().splitlines()
     starts = [i for i, l in enumerate(lines) if l.startswith('{"ev":"reset"')] + [len(lines)]
@@ -689,7 +698,7 @@ def chain_trace_stage(ev, runs, calls):
         with open(part, "w") as f:
             f.write("\n".join(lines[a:b]) + "\n")
         try:
-            results.append(validate_trace("trace/Trace_Chain.tla", "trace/Trace_Chain.cfg", part, f"{pid}-ctrace-{k}", 600) + (part,))
+            results.append(validate_trace("trace/Trace_Chain.tla", tcfg, part, f"{pid}-ctrace{sfx}-{k}", 600) + (part,))
         except ToolError as e:
             results.append(e)
     ts = [threading.Thread(target=work, args=(k,)) for k in range(nchunks)]
@@ -717,7 +726,7 @@ def chain_trace_stage(ev, runs, calls):
     ev.evaluations += rep["events"]
     ev.states += sum(r[1].distinct for r in results)
     ev.transitions += sum(r[1].generated for r in results)
-    ev.runs.append({"stage": "chain drive + trace validation (random programs up to 11 invocations)", "runs": rep["runs"],
+    ev.runs.append({"stage": "chain drive + trace validation (random programs up to 11 invocations" + (", with real staking / distribution)" if stake else ")"), "runs": rep["runs"],
                     "calls": rep["events"], "chunks": len(results), "rejected_in_focus": rejected,
                     "rejected_out_of_focus": other})
     if os.path.exists(tr):
@@ -785,6 +794,8 @@ def check_chain(tier, ev):
     ev.exhaustive = True
     if pid in TRACE_FOCUS:
         chain_trace_stage(ev, 40 if tier == "quick" else 400, 25)
+        if "stake" in c["cfgs"]:
+            chain_trace_stage(ev, 20 if tier == "quick" else 200, 25, stake=True)
     if pid in ("C01", "C10"):
         monitor_stage(ev)
 
@@ -855,6 +866,8 @@ def check_staking(tier, ev):
                       env={"MTV_FOCUS": "post.sk,post.unbonding,post.bank,reads.sk,reads.bank,ok,panic,events,rlog", "MTV_ALWAYS": ""},
                       need_features=["staking_message", "pending_unbonding_after", "nonzero_reward_visible", "payout_at_block_update",
                                      "staking_message_from_contract_ok"])
+        # impl -> spec: random mixed histories (contracts, bank, staking, block updates) on the real keepers, validated by TLC
+        chain_trace_stage(ev, 30 if tier == "quick" else 300, 25, stake=True)
     # design-level sanity: the two behaviours of the code before its repair are rejected by TLC
     for name, expect in (("dust_prefix", "StakersConsistent"), ("drift_prefix", "SlashKeepsWhole")):
         res, _ = run_tlc("mc/MC_Staking.tla", f"mc/MC_Staking_{name}.cfg", 900, f"{ev.pid}-{name}", coverage=False, expect_ok=False)
